@@ -104,12 +104,11 @@ fn validate_use_of_arguments_for_client_type<TCompilationProfile: CompilationPro
                 },
             )
             .as_ref()
-            .expect(
-                "Expected parsing to have succeeded. \
-                This is indicative of a bug in Isograph.",
-            ) {
-                Some(s) => s,
-                None => {
+            {
+                Ok(Some(s)) => s,
+                // e.g. multiple definitions of the selectable; reported by validate_selection_sets
+                Err(_) => return,
+                Ok(None) => {
                     // We could emit an error, but this is validated already as part of
                     // validate_selection_sets.
                     //
